@@ -16,6 +16,13 @@ COMMON_NOTE = (
 
 # id -> (level category, level text, technique, design ref, extra note)
 CLAIMED = {
+    "C01": (
+        "proof",
+        "Contracts on the three quad_ker integrands, conv.convolution (all 32 combinations of reg/sing/loc presence, interpolation mode and support position: empty-domain/below-support give exactly (0,0) without quadrature; otherwise value = QUAD + p_j(x) loc(x) with limits x(1+eps), min(max_i x/b_i,1)(1-eps), breakpoints at every area border, and the captured integrand called with the captured argument tuple on a symbolic z equals reg f(x/z)/z + sing (f(x/z)/z - f(x))), convolve_vector / convolve_operator (element-wise maps, lifted to any length by AST loop lemmas), the raw-order part of compute_local (sum over kernels of partons x convolution point x convolution, order window, None orders, |partons| for errors, cached second call) and the convolution point of every partonic-channel class.",
+        "contract-based deductive verification: symbolic execution with recording contract stubs for quad/eko + ratfun normaliser + AST loop lemmas",
+        "DESIGN 4 C01",
+        "A-quad, A-eko, L-plus (plus-prescription identity, with C03 supplying loc = delta - int sing) assumed; quadrature accuracy not covered.",
+    ),
     "C05": (
         "proof",
         "The real ScaleVariations methods, sector_mapping & co. and the scale-variation part of compute_local run on formal x-space operators (one-node grid: the code is linear in them), symbolic beta0/beta1, weights and raw coefficients with eko's concrete flavour projectors; the produced tensors are inserted into the apply_pdf contraction with the truncated running coupling and truncated DGLAP evolution and every coefficient of a0^k tR^i tF^j that the RGEs require to cancel (muR through a0^pto for pto<=3, muF through a0^min(pto,2)) is shown to be the zero polynomial; closed tables (build_orders, ren_coeffs, every sector of sector_mapping); switches: off-terms are exactly zero, the rest identical; intrinsic kernels carry no lnF.",
